@@ -32,6 +32,13 @@ check('C05', TV,
       BASE_NOTE, 'SMT (z3) equivalence of reference HT semantics vs real gamma output, per enumerated formula',
       'DESIGN.md 5 (C05)')
 
+check('C17', TV,
+      'For every enumerated (formula, variable, sort-compatible term) triple the real Formula::substitute is run and z3 '
+      'decides, for ALL HT/classical interpretations and assignments, that the result means the original under the '
+      'assignment x := value(term); the free-variable equation is checked on the trees.',
+      BASE_NOTE, 'SMT (z3) equivalence of substitution result vs semantic substitution, per enumerated triple',
+      'DESIGN.md 5 (C17)')
+
 NOT_APPLICABLE = [
     ('C10', 'thread pool + process spawning + regex over prover output: no symbolic reach for Kani/CBMC (no concurrency/process model) and nothing for an SMT encoding to carry; see DESIGN.md 6'),
     ('C11', 'graph algorithms over HashMap/petgraph/IndexSet on concrete programs: nothing left for a solver to quantify over, and symbolic programs are out of reach (DESIGN.md 1.1, 6)'),
